@@ -135,6 +135,8 @@ class Screen(BaseScreen, RealTerminal):
         a: AttrSpec = attrspecs[{16: 0, 1: 1, 88: 2, 256: 3, 2**24: 4}[self.colors]]
         self._pal_attrspec[name] = a
         self._pal_escape[name] = self._attrspec_to_escape(a)
+        # rows drawn with the old meaning of this name are no longer what the terminal should show
+        self.clear()
 
     def set_input_timeouts(
         self,
